@@ -13,17 +13,46 @@ def cb(s):
     return coq_bytes(s if isinstance(s, bytes) else s.encode())
 
 
-def gen_records(rng, n):
+def gen_records(rng, n, wide=False):
+    """narrow records (id + up to 4 fields) or wide ones (12..20 fields: Mlrmap builds its key index lazily from 12 fields on)"""
     recs = []
+    nextra = rng.randint(11, 15) if wide else 0
     for i in range(n):
         r = [(b"id", b"r%d" % i)]
         for k in KEYS:
             if rng.random() < 0.85:
                 r.append((k.encode(), rng.choice(WORDS)))
+        extras = [(b"w%02d" % j, rng.choice(WORDS)) for j in range(nextra)]
+        cut = rng.randint(0, len(extras)) if wide else 0
+        r = r[:1] + extras[:cut] + r[1:] + extras[cut:]
         if rng.random() < 0.1:
             rng.shuffle(r)
         recs.append(r)
     return recs
+
+
+def restructure_scenario(rng):
+    """a verb that renames / removes / moves a field, followed by verbs that refer to the OLD and the NEW name"""
+    k, k2 = rng.sample(KEYS, 2)
+    new = rng.choice(["zz", "zz", k2])
+    first = rng.choice([
+        (["rename", f"{k},{new}"], f"(VRename {cb(k)} {cb(new)})"), (["rename", "-r", f"^{k}$,{new}"], None), (["rename", "-g", f"^{k}$,{new}"], None),
+        (["cut", "-x", "-f", k], f"(VCutDrop [{cb(k)}])"), (["put", f"unset ${k}"], None),
+        (["reorder", "-f", k], f"(VReorderHead {cb(k)})"), (["reorder", "-e", "-f", k], f"(VReorderTail {cb(k)})"),
+    ])
+    def ref():
+        return rng.choice([
+            (["put", f"$seen = is_present(${k})"], None), (["put", f"$seen = is_present(${new}) . is_absent(${k})"], None),
+            (["cut", "-x", "-f", k], f"(VCutDrop [{cb(k)}])"), (["cut", "-x", "-f", new], f"(VCutDrop [{cb(new)}])"),
+            (["reorder", "-f", k], f"(VReorderHead {cb(k)})"), (["reorder", "-e", "-f", new], f"(VReorderTail {cb(new)})"),
+            (["rename", f"{new},{k}"], f"(VRename {cb(new)} {cb(k)})"), (["rename", f"{k2},{k}"], f"(VRename {cb(k2)} {cb(k)})"),
+            (["put", f'${k} = ${new} . "a"'], f"(VPutDot {cb(k)} {cb(new)} {cb('a')})"), (["put", f'${new} = ${k} . "a"'], f"(VPutDot {cb(new)} {cb(k)} {cb('a')})"),
+            (["cut", "-f", f"id,{k},{new}"], f"(VCutKeep [{cb('id')}; {cb(k)}; {cb(new)}])"), (["cut", "-o", "-f", f"{k},{new},id"], None),
+            (["fill-down", "-f", k], f"(VFillDown false {cb(k)})"), (["sort", "-f", k], f"(VSortF {cb(k)})"), (["sort", "-nr", new], f"(VSortN true {cb(new)})"),
+            (["count-similar", "-g", k], f"(VCountSimilar {cb(k)})"), (["sec2gmt", k], None), (["having-fields", "--at-least", k], None),
+            (["put", f"unset ${k}"], None), (["put", f'${k} = "re"'], None), (["label", f"id,{k}"], f"(VLabel [{cb('id')}; {cb(k)}])"), (["regularize"], "VRegularize"),
+        ])
+    return [first] + [ref() for _ in range(rng.choice([1, 1, 2, 3]))]
 
 
 def modelled_pool(rng):
@@ -49,7 +78,7 @@ def extra_pool(rng):
         (["sort", "-r", k], None), (["sort", "-f", k, "-r", k2], None), (["sort", "-c", k], None), (["unsparsify"], None),
         (["group-like"], None), (["group-by", k], None), (["fill-empty"], None), (["fill-empty", "-v", "X"], None),
         (["uniq", "-g", k], None), (["uniq", "-g", f"{k},{k2}", "-c"], None), (["count-distinct", "-f", k], None),
-        (["sec2gmt", k], None), (["put", f'${k2} = toupper(${k})'], None), (["put", f'${k2} = strlen(${k})'], None), (["filter", f'${k} != "pan"'], None),
+        (["sec2gmt", k], None), (["put", f'${k2} = toupper(${k})'], None), (["put", f'${k2} = strlen(${k} . "")'], None), (["filter", f'${k} != "pan"'], None),
         (["filter", f'is_present(${k})'], None), (["head", "-n", "1", "-g", k], None), (["tail", "-n", "1", "-g", k], None), (["top", "-n", "2", "-f", "x", "-g", k, "-a"], None),
         (["nest", "--ivar", ";", "-f", k], None), (["sort-within-records"], None), (["template", "-f", "id,a,b,c,x"], None), (["sec2gmtdate", k], None),
         (["having-fields", "--at-least", k], None), (["decimate", "-n", "2"], None), (["count", "-g", k], None), (["cat", "-N", "idx", "-g", k], None),
@@ -101,13 +130,14 @@ def chain_args(chain):
 # ------------------------------------------------------------------------------------------ chains
 def chains(ctx, props_ok, tmp):
     rng = ctx.rng
-    nchains = 120 if ctx.tier == "quick" else 2500
+    nchains = 150 if ctx.tier == "quick" else 2500
     plans = []
     for ci in range(nchains):
         modelled = ci % 3 != 2
         length = rng.choice([2, 2, 3, 3, 4])
-        verbs = [gen_verb(rng, modelled) for _ in range(length)]
-        recs = gen_records(rng, rng.choice([0, 1, 4, 9, 14]))
+        verbs = restructure_scenario(rng) if ci % 5 in (1, 3) else [gen_verb(rng, modelled) for _ in range(length)]
+        wide = ci % 2 == 1
+        recs = gen_records(rng, rng.choice([0, 1, 4, 9, 14]) if not wide else rng.choice([1, 3, 6]), wide)
         mid = rng.choice(["dkvp", "json", "csvlite", "dkvp"]) if ci % 3 else "dkvp"
         rpb = rng.choice([None, None, "1", "2", "3"])
         d = os.path.join(tmp, "ch%d" % ci)
@@ -138,6 +168,7 @@ def chains(ctx, props_ok, tmp):
         args = chain_args([v[0] for v in verbs])
         ctx.count(("chain", tuple(map(tuple, args)), tuple(map(tuple, recs)), mid, rpb))
         ctx.dist("chain_len:%d" % len(verbs))
+        ctx.dist("chain_records:" + ("wide(12-20 fields)" if any(len(r) >= 12 for r in recs) else "narrow"))
         ctx.dist("chain_mid:" + mid)
         for v in verbs:
             ctx.dist("verb:" + v[0][0])
@@ -473,7 +504,7 @@ def run(ctx):
     ctx.cov["rule"] = ("(1) chains: 2..4 verbs; two thirds of the cases draw only from the 24 verb invocations that have a Coq model (cat, tac, head, tail, rename incl. a,a, cut, cut -x, "
                        "reorder, reorder -e, fill-down, fill-down -a, put dot-assignment, cat -n, count-similar, sort -f/-nf/-nr, label, regularize, nothing), the others also from ~33 "
                        "further type-stable verbs; inputs: 0..14 heterogeneous records over keys id,a,b,c,x with missing and empty fields, values canonical integers/words/empty; "
-                       "`mlr A then B ...` vs the shell-style pipe through dkvp/json/csvlite files, with --records-per-batch 1/2/3/default; modelled chains are also compared with "
+                       "half of the cases on WIDE records of 12..20 fields (Mlrmap's lazily built key index), two fifths of the chains are restructure-then-refer scenarios (rename / rename -r / unset / cut -x / reorder followed by verbs naming the old and the new field: is_present, cut -x, reorder, rename back, assignments, sort, label ...); `mlr A then B ...` vs the shell-style pipe through dkvp/json/csvlite files, with --records-per-batch 1/2/3/default; modelled chains are also compared with "
                        "the Coq model (vm_compute). (2) obliviousness of every pool verb: one file vs three files vs NR shifted by dropped records. (3) multi-file: 1..4 files "
                        "(empty, header-only, differing headers, duplicate header fields, duplicate dkvp keys, ragged lines with and without --allow-ragged-csv-input, blank lines "
                        "= csvlite schema change / csv one-empty-field row, --no-dedupe-field-names) in dkvp/csv/csvlite/tsv/implicit header (csv and csvlite)/nidx; NR/FNR/FILENAME/"
